@@ -89,6 +89,9 @@ class LineProc:
         self.p = None
         self.last_death = None
         self.deaths = 0
+        self.timeouts = 0         # requests the child did not answer within the limit
+        self.max_timeouts = 12    # after that many, further requests are not sent (answered None, last_death says so): a child
+                                  # that hangs does so on many inputs, and each costs the full time limit
         self.buf = b""
         self.init_lines = []      # requests replayed after every (re)start of the child (their replies are dropped)
 
@@ -109,6 +112,9 @@ class LineProc:
         self.p = None
 
     def ask_raw(self, line, timeout=None):
+        if self.timeouts >= self.max_timeouts:
+            self.last_death = "timeout (not sent: the child has already exceeded the time limit %d times in this run)" % self.timeouts
+            return None
         if self.p is None or self.p.poll() is not None:
             self.start()
         return self._exchange(line, timeout or self.timeout)
@@ -127,6 +133,7 @@ class LineProc:
                 self.kill()
                 self.last_death = "timeout"
                 self.deaths += 1
+                self.timeouts += 1
                 return None
             r, _, _ = select.select([fd], [], [], min(left, 1.0))
             if r:
